@@ -18,6 +18,15 @@ void setup() {
   if (!dead) { dead = new("/obj/c01ob"); deadfp = dead->get_fp(); destruct(dead); }
 }
 
+// "" or "<kind>:<size>" when a value is larger than the limits checks/c04.py configures (c01.OVER_LIMITS) for its run of the surface
+string over(mixed v) {
+  if (stringp(v) && strlen(v) > 100000) return "string:" + strlen(v);
+  if (arrayp(v) && sizeof(v) > 8000) return "array:" + sizeof(v);
+  if (mapp(v) && sizeof(v) > 3000) return "mapping:" + sizeof(v);
+  if (bufferp(v) && sizeof(v) > 1000) return "buffer:" + sizeof(v);
+  return "";
+}
+
 mixed val(string k) {
   mixed *sh;
   class c01pt p;
